@@ -12,7 +12,8 @@ Inductive subexpr : expr -> expr -> Prop :=
 | sub_cast e a t : subexpr e a -> subexpr e (ECast a t)
 | sub_call e f es a : In a es -> subexpr e a -> subexpr e (ECall f es)
 | sub_slit e sid es a : In a es -> subexpr e a -> subexpr e (EStructLit sid es)
-| sub_field e a k : subexpr e a -> subexpr e (EField a k).
+| sub_field e a k : subexpr e a -> subexpr e (EField a k)
+| sub_callr e f args a : In a args -> subexpr e (snd a) -> subexpr e (ECallR f args).
 
 (* e occurs (at any depth) in statement s *)
 Inductive occurs : expr -> stmt -> Prop :=
@@ -83,7 +84,47 @@ Proof.
   - inversion H. split; [reflexivity|constructor].
   - apply tbind_ok in H as [te [H1 H2]]. destruct (ty_eqb te (TInt t1)) eqn:E; [|discriminate].
     destruct (IH fr H2) as [Ht HF]. split; [exact Ht|]. constructor; [|exact HF].
-    destruct te as [x| | |]; cbn in E; try discriminate. destruct x, t1; cbn in E; try discriminate; exact H1.
+    destruct te as [x| | | |]; cbn in E; try discriminate. destruct x, t1; cbn in E; try discriminate; exact H1.
+Qed.
+
+(* by-reference calls: the flags agree with the parameter kinds, a flagged argument is a variable, and every argument has the
+   type the parameter has inside the callee (pty_in) *)
+Definition argr_ok (G : tenv) (a : bool * expr) (pt : ty) : Prop :=
+  fst a = is_ref pt /\ (fst a = true -> is_var (snd a) = true) /\
+  exists te, check_expr structs sigs G (snd a) = TOk te /\ ty_eqb te (pty_in pt) = true.
+
+Lemma argsr_ok G rt : forall args pts,
+  (fix ca (args : list (bool * expr)) (pts : list ty) {struct args} : tres ty :=
+     match args, pts with
+     | [], [] => TOk rt
+     | a1 :: r, t1 :: pr =>
+         if negb (Bool.eqb (fst a1) (is_ref t1)) || (fst a1 && negb (is_var (snd a1))) then TErr EArgType else
+         tbind (check_expr structs sigs G (snd a1)) (fun te => if ty_eqb te (pty_in t1) then ca r pr else TErr EArgType)
+     | _, _ => TErr EArity
+     end) args pts = TOk rt ->
+  Forall2 (argr_ok G) args pts.
+Proof.
+  induction args as [|a1 r IH]; intros [|t1 pr] H; try discriminate.
+  - constructor.
+  - destruct (negb (Bool.eqb (fst a1) (is_ref t1)) || (fst a1 && negb (is_var (snd a1)))) eqn:Ef; [discriminate|].
+    apply orb_false_elim in Ef as [Ef1 Ef2]. apply negb_false_iff in Ef1. apply eqb_prop in Ef1.
+    apply tbind_ok in H as [te [H1 H2]]. destruct (ty_eqb te (pty_in t1)) eqn:E; [|discriminate].
+    constructor; [|apply IH; exact H2]. split; [exact Ef1|]. split; [|exists te; auto].
+    intros Ht. rewrite Ht in Ef2. cbn in Ef2. apply negb_false_iff in Ef2. exact Ef2.
+Qed.
+
+Lemma callr_inv G f args t :
+  check_expr structs sigs G (ECallR f args) = TOk t ->
+  exists pts, nth_error sigs f = Some (pts, t) /\ distinct_refs args = true /\ Forall2 (argr_ok G) args pts.
+Proof.
+  cbn. destruct (nth_error sigs f) as [[pts rt]|]; [|discriminate].
+  destruct (distinct_refs args) eqn:Ed; cbn; [|discriminate]. intros H.
+  assert (rt = t).
+  { clear - H. revert pts H. induction args as [|a1 r IH]; intros [|t1 pr] H; try discriminate.
+    - inversion H; reflexivity.
+    - destruct (negb (Bool.eqb (fst a1) (is_ref t1)) || (fst a1 && negb (is_var (snd a1)))); [discriminate|].
+      apply tbind_ok in H as [te [_ H2]]. destruct (ty_eqb te (pty_in t1)); [|discriminate]. eapply IH; eauto. }
+  subst rt. exists pts. split; [reflexivity|]. split; [reflexivity|]. apply (argsr_ok G t args pts H).
 Qed.
 
 (* T1: every subexpression of a well-typed expression is well typed (same environment) *)
@@ -91,7 +132,8 @@ Theorem subexpr_typed G : forall e t, check_expr structs sigs G e = TOk t ->
   forall e', subexpr e' e -> exists t', check_expr structs sigs G e' = TOk t'.
 Proof.
   intros e t H e' Hs. revert t H.
-  induction Hs as [e|e o a b Hs IH|e o a b Hs IH|e o a Hs IH|e a t0 Hs IH|e f es a Hin Hs IH|e sid es a Hin Hs IH|e a k Hs IH]; intros t H.
+  induction Hs as [e|e o a b Hs IH|e o a b Hs IH|e o a Hs IH|e a t0 Hs IH|e f es a Hin Hs IH|e sid es a Hin Hs IH|e a k Hs IH
+                  |e f args a Hin Hs IH]; intros t H.
   - eauto.
   - cbn in H. apply tbind_ok in H as [ta [Ha _]]. eapply IH; eauto.
   - cbn in H. apply tbind_ok in H as [ta [_ H]]. apply tbind_ok in H as [tb [Hb _]]. eapply IH; eauto.
@@ -108,6 +150,11 @@ Proof.
       destruct Hin as [->|Hin]; eauto. }
     eapply IH; eauto.
   - cbn in H. apply tbind_ok in H as [ta [Ha _]]. eapply IH; eauto.
+  - apply callr_inv in H as [pts [_ [_ HF]]].
+    assert (exists te, check_expr structs sigs G (snd a) = TOk te) as [te Hte].
+    { clear - HF Hin. induction HF as [|x y l l' [_ [_ [te [H1 _]]]] _ IHF]; [destruct Hin|].
+      destruct Hin as [->|Hin]; eauto. }
+    eapply IH; eauto.
 Qed.
 
 Lemma prints_ok G : forall es,
@@ -136,7 +183,7 @@ Proof.
     destruct (subexpr_typed G _ _ H1 _ Hs) as [t' Ht']. eauto.
   - destruct (tlookup x G); [|discriminate]. apply tbind_ok in H as [te [H1 _]].
     destruct (subexpr_typed G _ _ H1 _ Hs) as [t' Ht']. eauto.
-  - destruct (tlookup x G) as [[| | |sid]|]; try discriminate.
+  - destruct (tlookup x G) as [[| | |sid|]|]; try discriminate.
     destruct (nth_error structs sid) as [fts|]; [|discriminate]. destruct (nth_error fts k); [|discriminate].
     apply tbind_ok in H as [te [H1 _]]. destruct (subexpr_typed G _ _ H1 _ Hs) as [t' Ht']. eauto.
   - apply tbind_ok in H as [tc [H1 _]]. destruct (subexpr_typed G _ _ H1 _ Hs) as [t' Ht']. eauto.
@@ -161,8 +208,8 @@ Proof.
       apply tbind_ok in H as [te [_ H]]. destruct (printable te); [auto|discriminate]. }
     destruct (prints_ok G es H a Hin) as [te [Hte _]].
     destruct (subexpr_typed G _ _ Hte _ Hs) as [t' Ht']. eauto.
-  - destruct e0; try discriminate. apply tbind_ok in H as [te [H1 _]].
-    destruct (subexpr_typed G _ _ H1 _ Hs) as [t' Ht']. eauto.
+  - destruct e0; try discriminate; apply tbind_ok in H as [te [H1 _]];
+      destruct (subexpr_typed G _ _ H1 _ Hs) as [t' Ht']; eauto.
   - apply tbind_ok in H as [Ga [Ha _]]. eapply IH; eauto.
 Qed.
 End S.
@@ -197,7 +244,7 @@ Lemma rule_arith_operands G o a b t :
   exists x, check_expr structs sigs G a = TOk (TInt x) /\ check_expr structs sigs G b = TOk (TInt x) /\ t = TInt x.
 Proof.
   intros Ho H. cbn in H. apply tbind_ok in H as [ta [Ha H]]. apply tbind_ok in H as [tb [Hb H]].
-  destruct Ho as [-> | [-> | [-> | [-> | ->]]]]; destruct ta as [x| | |sx], tb as [y| | |sy]; try discriminate;
+  destruct Ho as [-> | [-> | [-> | [-> | ->]]]]; destruct ta as [x| | |sx|rx], tb as [y| | |sy|ry]; try discriminate;
     destruct (ity_eqb x y) eqn:E; try discriminate; inversion H; subst;
     exists x; (assert (x = y) as <- by (destruct x, y; cbn in E; congruence)); auto.
 Qed.
@@ -208,7 +255,7 @@ Lemma rule_order_operands G o a b t :
   exists x, check_expr structs sigs G a = TOk (TInt x) /\ check_expr structs sigs G b = TOk (TInt x) /\ t = TBool.
 Proof.
   intros Ho H. cbn in H. apply tbind_ok in H as [ta [Ha H]]. apply tbind_ok in H as [tb [Hb H]].
-  destruct Ho as [-> | [-> | [-> | ->]]]; destruct ta as [x| | |sx], tb as [y| | |sy]; try discriminate;
+  destruct Ho as [-> | [-> | [-> | ->]]]; destruct ta as [x| | |sx|rx], tb as [y| | |sy|ry]; try discriminate;
     destruct (ity_eqb x y) eqn:E; try discriminate; inversion H; subst;
     exists x; (assert (x = y) as <- by (destruct x, y; cbn in E; congruence)); auto.
 Qed.
@@ -234,8 +281,9 @@ Proof. cbn. destruct (in_range t v); intros H; inversion H; auto. Qed.
 
 Lemma ty_eqb_eq a b : ty_eqb a b = true -> a = b.
 Proof.
-  destruct a as [x| | |m], b as [y| | |n]; cbn; try discriminate; auto.
+  destruct a as [x| | |m|m], b as [y| | |n|n]; cbn; try discriminate; auto.
   - destruct x, y; cbn; congruence.
+  - intros H. apply Nat.eqb_eq in H. congruence.
   - intros H. apply Nat.eqb_eq in H. congruence.
 Qed.
 
@@ -248,6 +296,23 @@ Proof.
   - clear - HF. induction HF; cbn; congruence.
   - clear - HF. induction HF as [|e pt l l' [te [H1 H2]] _ IH]; constructor; auto.
     apply ty_eqb_eq in H2. subst. exact H1.
+Qed.
+
+(* by-reference calls: the callee is declared, the counts match, an argument is passed by reference exactly where the parameter
+   is a mutable reference and is then a variable, every argument has the parameter's inner type, and no variable is passed by
+   reference twice *)
+Lemma rule_callr G f args t :
+  check_expr structs sigs G (ECallR f args) = TOk t ->
+  exists pts, nth_error sigs f = Some (pts, t) /\ length args = length pts /\ distinct_refs args = true /\
+              Forall2 (fun a pt => fst a = is_ref pt /\ (fst a = true -> exists x, snd a = EVar x) /\
+                                   check_expr structs sigs G (snd a) = TOk (pty_in pt)) args pts.
+Proof.
+  intros H. apply callr_inv in H as [pts [Hn [Hd HF]]]. exists pts. split; [exact Hn|]. split; [|split; [exact Hd|]].
+  - clear - HF. induction HF; cbn; congruence.
+  - clear - HF. induction HF as [|a pt l l' [Hf [Hv [te [H1 H2]]]] _ IH]; constructor; auto.
+    split; [exact Hf|]. split.
+    + intros Ht. specialize (Hv Ht). destruct (snd a); try discriminate. eauto.
+    + apply ty_eqb_eq in H2. subst. exact H1.
 Qed.
 
 Lemma rule_condition_bool ret inl G c a b G' :
